@@ -651,3 +651,48 @@ func (e *Engine) durable(key string, con *FnContract) bool {
 	}
 	return false
 }
+
+// structFields resolves `pkg.Type` through the imports of the contract file and
+// returns its field names in declaration order (embedded fields by type name).
+func (e *Engine) structFields(ss *StructShape) ([]string, error) {
+	i := strings.LastIndex(ss.Type, ".")
+	if i < 0 {
+		return nil, fmt.Errorf("struct type must be package qualified")
+	}
+	pkgName, typeName := ss.Type[:i], ss.Type[i+1:]
+	path := ""
+	for _, p := range e.pkgs {
+		if p.PkgPath == ss.Pkg {
+			if p.Types.Name() == pkgName {
+				path = p.PkgPath
+			}
+			for ipath, ip := range p.Imports {
+				if ip.Name == pkgName {
+					path = ipath
+				}
+			}
+		}
+	}
+	if path == "" {
+		path = e.contracts.Imports[pkgName]
+	}
+	for _, sp := range e.prog.AllPackages() {
+		if sp.Pkg.Path() != path {
+			continue
+		}
+		obj, ok := sp.Pkg.Scope().Lookup(typeName).(*types.TypeName)
+		if !ok {
+			break
+		}
+		st, ok := obj.Type().Underlying().(*types.Struct)
+		if !ok {
+			return nil, fmt.Errorf("%s is not a struct", ss.Type)
+		}
+		var out []string
+		for k := 0; k < st.NumFields(); k++ {
+			out = append(out, st.Field(k).Name())
+		}
+		return out, nil
+	}
+	return nil, fmt.Errorf("type %s not found", ss.Type)
+}
